@@ -47,3 +47,16 @@ Theorem C14_ios_move_free_script_safe_at_every_step :
       fverdict packet matches permit default (map snd lk) p = fverdict packet matches permit default (listA m) p.
 Proof. exact ios_fresh_stepwise. Qed.
 Print Assumptions C14_ios_move_free_script_safe_at_every_step.
+
+(* ASA, proved for EVERY move-free edit script (no body of an added line equals the body of a
+   deleted line; no body twice per ACL): after any number k of the commands of diff_asa the
+   device ACL gives every packet on which the old and the new ACL agree that same verdict. *)
+From NA Require Import Cisco.AsaAclProofs Cisco.AsaStepSafe.
+Theorem C14_asa_move_free_script_safe_at_every_step :
+  forall m : AsaAcl.script, NoDup (bodies (AsaAcl.listA m)) -> NoDup (bodies (AsaAcl.listB m)) -> move_freeP m ->
+  forall k, exists lk, dexec_all (AsaAcl.listA m) (firstn k (diff_asa m)) = Some lk /\
+    forall (packet : Type) (matches : AsaAcl.entry -> packet -> bool) (permit : AsaAcl.entry -> bool) (default : bool) (p : packet),
+      StepSafe.verdict packet matches permit default (AsaAcl.listA m) p = StepSafe.verdict packet matches permit default (AsaAcl.listB m) p ->
+      StepSafe.verdict packet matches permit default lk p = StepSafe.verdict packet matches permit default (AsaAcl.listA m) p.
+Proof. exact asa_move_free_stepwise. Qed.
+Print Assumptions C14_asa_move_free_script_safe_at_every_step.
